@@ -24,6 +24,8 @@ type PSStep struct {
 	P  []PStep   `json:"p,omitempty"`
 	Q  []PStep   `json:"q,omitempty"`
 	Ps [][]PStep `json:"ps,omitempty"`
+	// Style selects the path constructors for P (see ctyPathVia).
+	Style int `json:"style,omitempty"`
 }
 
 // PSIn is a history over three path-set registers.
@@ -219,7 +221,7 @@ func genPSIn(t *rapid.T) PSIn {
 	for i := 0; i < n; i++ {
 		op := rapid.SampledFrom([]string{"add", "add", "add", "add", "remove", "remove", "has", "has", "addall", "empty", "list", "new",
 			"union", "intersection", "subtract", "symdiff", "equal", "equal", "patheq"}).Draw(t, "op")
-		st := PSStep{Op: op, A: reg("a")}
+		st := PSStep{Op: op, A: reg("a"), Style: rapid.IntRange(0, 2).Draw(t, "style")}
 		switch op {
 		case "add", "remove", "has", "addall":
 			st.P = pick()
@@ -244,9 +246,9 @@ func genPSIn(t *rapid.T) PSIn {
 func init() {
 	facet.Register(facet.F[PSIn]{
 		Prop: "C19", Name: "pathset/history",
-		Rule: "history of 4-24 operations over three PathSet registers whose path pool holds at least one pair of distinct paths in the same hash bucket (same attribute names, any index keys); paths share steps, number keys come by several construction routes, string keys in both normalisation forms, one history in ten uses unknown keys; after every step every register is compared (List, Empty, Has over the whole pool) with a map-of-canonical-paths model; distinct = hash of the input JSON",
-		Quick: 12000, Thorough: 60000,
-		Gen: genPSIn,
+		Rule:  "history of 4-24 operations over three PathSet registers whose path pool holds at least one pair of distinct paths in the same hash bucket (same attribute names, any index keys); paths share steps, number keys come by several construction routes, string keys in both normalisation forms, one history in ten uses unknown keys; after every step every register is compared (List, Empty, Has over the whole pool) with a map-of-canonical-paths model; distinct = hash of the input JSON",
+		Quick: 12000, Thorough: 30000,
+		Gen:   genPSIn,
 		Check: checkPathSet,
 	})
 }
@@ -272,10 +274,8 @@ func checkPathSet(c *facet.Ctx, in PSIn) (ret error) {
 			return pe{}, false
 		}
 		for _, s := range p {
-			if s.Key != nil {
-				if _, err := spec.Build(*s.Key); err != nil {
-					return pe{}, false
-				}
+			if s.Key != nil && !keySpecOK(*s.Key) {
+				return pe{}, false
 			}
 		}
 		e := pe{p, cn, ctyPath(p)}
@@ -368,19 +368,23 @@ func checkPathSet(c *facet.Ctx, in PSIn) (ret error) {
 	}
 	for i, st := range in.Steps {
 		c.Label("op=" + st.Op)
+		pP, pok := ctyPathVia(st.P, st.Style)
+		if !pok {
+			return fail(i, "path-builders", "building %s step by step (style %d) disturbed an earlier path", pathText(st.P), st.Style)
+		}
 		switch st.Op {
 		case "add":
 			cn, _ := canonPath(st.P)
-			lib[st.A].Add(ctyPath(st.P))
+			lib[st.A].Add(pP)
 			mod[st.A][cn] = st.P
 		case "remove":
 			cn, _ := canonPath(st.P)
-			lib[st.A].Remove(ctyPath(st.P))
+			lib[st.A].Remove(pP)
 			delete(mod[st.A], cn)
 		case "has":
 			// covered by verify (the path is in the pool)
 		case "addall":
-			lib[st.A].AddAllSteps(ctyPath(st.P))
+			lib[st.A].AddAllSteps(pP)
 			for k := 1; k <= len(st.P); k++ {
 				cn, _ := canonPath(st.P[:k])
 				mod[st.A][cn] = st.P[:k]
@@ -450,7 +454,7 @@ func checkPathSet(c *facet.Ctx, in PSIn) (ret error) {
 				return fail(i, "pathset-equal", "Equal(reg %d, reg %d) = %t, model %t (converse direction)", st.B, st.A, got, want).With("model-unknown", boolText(modelHasUnknown(mod[st.A]) && modelHasUnknown(mod[st.B])))
 			}
 		case "patheq":
-			p, q := ctyPath(st.P), ctyPath(st.Q)
+			p, q := pP, ctyPath(st.Q)
 			cp, _ := canonPath(st.P)
 			cq, _ := canonPath(st.Q)
 			if got := p.Equals(q); got != (cp == cq) {
